@@ -36,7 +36,11 @@ def strip_comments(src):
 
 def fn_body(src, header):
     """text between the braces of the item starting with `header`"""
-    i = src.find(header)
+    if header.startswith("re:"):
+        m = re.search(header[3:], src)
+        i = m.start() if m else -1
+    else:
+        i = src.find(header)
     if i < 0:
         return None
     j = src.find("{", i)
@@ -256,9 +260,53 @@ def extract_main(out):
     out.append("def cliYoSuffix : List String := " + llist(lstr(x) for x in re.findall(r'ends_with\("([^"]+)"\)', src)))
 
 
+# Text pins: the normalised, comment-free body of every function the hand-written model transcribes.  Each is compared
+# (Hcl/Tie/Pins*.lean, written by tools/mkpins.py when a change of /repo has been reviewed) with the text the model was
+# last validated against, so that any edit of a modelled function is noticed even when no stream input exposes it.
+PINS = [
+    # (Lean name, group = Tie module suffix, file, header)
+    ("pinLoadLine", "Yo", "src/program.rs", "fn load_line_y86(&mut self"),
+    ("pinLoadFrom", "Yo", "src/program.rs", "pub fn load_from_y86<R: BufRead>"),
+    ("pinDumpMemory", "Dump", "src/program.rs", "fn dump_memory_y86<W: Write>"),
+    ("pinDumpBank", "Dump", "src/program.rs", "fn dump_bank<W: Write>"),
+    ("pinDumpCustom", "Dump", "src/program.rs", "fn dump_custom_registers_y86<W: Write>"),
+    ("pinDumpRegisters", "Dump", "src/program.rs", "fn dump_program_registers_y86<W: Write>"),
+    ("pinDumpY86", "Dump", "src/program.rs", "pub fn dump_y86<W: Write>"),
+    ("pinNameStatus", "Dump", "src/program.rs", "pub fn name_status_y86(&self)"),
+    ("pinTopologicalSort", "Graph", "src/program.rs", "fn topological_sort(&self)"),
+    ("pinFindCycle", "Graph", "src/program.rs", "fn find_cycle(&self)"),
+    ("pinResolveConstants", "Build", "src/program.rs", "fn resolve_constants(exprs"),
+    ("pinPreprocessFixed", "Build", "src/program.rs", "fn preprocess_fixed<'a>("),
+    ("pinAssignmentsToActions", "Build", "src/program.rs", "fn assignments_to_actions<'a>("),
+    ("pinProgramNew", "Build", "src/program.rs", "re:pub fn new\\(\\s*statements: Vec<Statement>"),
+    ("pinInitialState", "Init", "src/program.rs", "pub fn initial_state(&self)"),
+    ("pinStepWithOutput", "Step", "src/program.rs", "pub fn step_with_output<W: Write>"),
+    ("pinRun", "Run", "src/program.rs", "pub fn run<W: Write>"),
+    ("pinMarkNewlines", "Io", "src/io.rs", "fn mark_newlines(offset"),
+    ("pinFilename", "Io", "src/io.rs", "pub fn filename(&self, index: usize)"),
+    ("pinLineNumberAndBounds", "Io", "src/io.rs", "pub fn line_number_and_bounds(&self, index: usize)"),
+    ("pinShowRegion", "Io", "src/io.rs", "pub fn show_region(&self, start: usize, end: usize)"),
+    ("pinFindTableWidths", "Table", "src/program.rs", "fn find_table_widths(&self"),
+    ("pinDumpWireSubtable", "Table", "src/program.rs", "fn dump_wire_subtable<W: Write>"),
+    ("pinGetWidthAndCheck", "Check", "src/ast.rs", "pub fn get_width_and_check<'a>("),
+    ("pinFixMuxWidths", "Check", "src/ast.rs", "pub fn fix_mux_widths<'a>("),
+    ("pinEvaluate", "Check", "src/ast.rs", "pub fn evaluate<'a>("),
+    ("pinMainReal", "Main", "src/main.rs", "fn main_real()"),
+]
+
+
+def extract_pins(out):
+    cache = {}
+    for name, _group, path, header in PINS:
+        if path not in cache:
+            cache[path] = strip_comments(read(path))
+        body = fn_body(cache[path], header)
+        out.append("def %s : String := %s" % (name, lstr(norm(body) if body is not None else "UNRECOGNISED")))
+
+
 def main():
     out = []
-    for f in (extract_ast, extract_cargo, extract_program, extract_disasm, extract_lexer, extract_grammar, extract_main):
+    for f in (extract_ast, extract_cargo, extract_program, extract_disasm, extract_lexer, extract_grammar, extract_main, extract_pins):
         try:
             f(out)
         except Exception as e:  # a recogniser that crashes marks its table unrecognised
